@@ -878,6 +878,31 @@ func (*c15) Gen(rng *RNG, tier string) []Case {
 			})
 		}
 	}
+	// 2b'. a delete through the unifier of something only ONE member has: that member's delete succeeds, the other's
+	// fails, and "a write reports success only if both succeeded" (seed C15-12). Probes before and after.
+	for pol := 0; pol < 2; pol++ {
+		for _, only := range []string{"m0", "m1"} {
+			mk("delete:onesided", pol, 0, func(g *c15Gen) {
+				a := tok("a")
+				g.add("mb", g.blobLine("a", 0, "application/octet-stream")) // the repository exists in both
+				g.add(only, g.blobLine("a", 1, "application/octet-stream"))
+				g.add(only, g.manifestLine("a", "only", 0))
+				b := g.u.blobs[1%len(g.u.blobs)]
+				m := g.u.manifests[0]
+				probe := func(l string) { g.add("p0", l); g.add("p1", l) }
+				probe(fmt.Sprintf("mem resolvetag %s %s", a, tok("only")))
+				g.writeWithProbes(fmt.Sprintf("mem deletetag %s %s", a, tok("only")))
+				probe(fmt.Sprintf("mem resolvemanifest %s %s", a, tok(sha256Digest(m.data))))
+				g.writeWithProbes(fmt.Sprintf("mem deletemanifest %s %s", a, tok(sha256Digest(m.data))))
+				probe(fmt.Sprintf("mem resolveblob %s %s", a, tok(sha256Digest(b))))
+				g.writeWithProbes(fmt.Sprintf("mem deleteblob %s %s", a, tok(sha256Digest(b))))
+				// and in a repository only one member knows
+				g.add(only, g.blobLine("solo", 1, "application/octet-stream"))
+				probe(fmt.Sprintf("mem resolveblob %s %s", tok("solo"), tok(sha256Digest(b))))
+				g.writeWithProbes(fmt.Sprintf("mem deleteblob %s %s", tok("solo"), tok(sha256Digest(b))))
+			})
+		}
+	}
 	// 2c. one Write reaches one member only; then close, resume by asking, write the rest, commit
 	for _, which := range []string{"0", "1"} {
 		for nth := 1; nth <= 3; nth++ {
@@ -1035,6 +1060,16 @@ func (*c15) Oracle(c Case, impl []string) []Failure {
 		}
 		who, op := t[1], t[3]
 		opText := strings.Join(t[3:], " ")
+		if c15MemMutating[op] && who == "u" && strings.HasPrefix(op, "delete") && !strings.HasPrefix(got, "err ") && i >= 2 {
+			// the two lines before a directed delete are the members' own answers about the item
+			p0, p1 := strings.Split(c.Lines[i-2], " "), strings.Split(c.Lines[i-1], " ")
+			if len(p0) >= 4 && len(p1) >= 4 && p0[1] == "p0" && p1[1] == "p1" && strings.HasPrefix(p0[3], "resolve") && p0[3] == p1[3] &&
+				strings.Join(p0[4:], " ") == strings.Join(p1[4:], " ") && strings.Join(p0[4:], " ") == strings.Join(t[4:], " ") {
+				if strings.HasPrefix(impl[i-2], "err ") != strings.HasPrefix(impl[i-1], "err ") {
+					fail("c15-delete-success-one-member-failed:"+op, "success_only_if_both", "err … (one member does not have what is deleted, so its delete fails)")
+				}
+			}
+		}
 		if c15MemMutating[op] {
 			last = map[key]int{}
 			// a write reported successful is present in both members (absent, for a delete)
